@@ -148,5 +148,32 @@ theorem sumIf_eq_sum_get (p : κ → Bool) (m : FMap κ) (h : (keys m).Nodup) :
       rw [List.filter_cons_of_pos hp, List.map_cons, List.sum_cons, hmap, hg]; simp [hp]
     · rw [List.filter_cons_of_neg hp, hmap]; simp [hp]
 
+/-- with unique keys, two predicates that differ only on keys whose value is 0 give the same sum -/
+theorem sumIf_congr_zero (p q : κ → Bool) (m : FMap κ) (hnd : (keys m).Nodup)
+    (h : ∀ k ∈ keys m, p k ≠ q k → get m k = 0) : sumIf p m = sumIf q m := by
+  induction m with
+  | nil => rfl
+  | cons hd t ih =>
+    obtain ⟨a, b⟩ := hd
+    have hk : keys ((a, b) :: t) = a :: keys t := rfl
+    rw [hk, List.nodup_cons] at hnd
+    have iht : sumIf p t = sumIf q t := by
+      apply ih hnd.2
+      intro k hkt hpq
+      have hne : a ≠ k := fun e => hnd.1 (e ▸ hkt)
+      have := h k (by rw [hk]; exact List.mem_cons_of_mem _ hkt) hpq
+      simpa [get, hne] using this
+    unfold sumIf
+    rw [iht]
+    by_cases hpq : p a = q a
+    · rw [hpq]
+    · have hb : b = 0 := by
+        have := h a (by rw [hk]; exact List.mem_cons_self ..) hpq
+        simpa [get] using this
+      subst hb; simp
+
+theorem keys_nodup_add (m : FMap κ) (k : κ) (d : Int) (h : (keys m).Nodup) : (keys (add m k d)).Nodup :=
+  keys_nodup_set m k _ h
+
 end FMap
 end Elys
